@@ -335,9 +335,13 @@ func (w *cronWorld) describe(jc *execution.JobConfig, tz tzChoice) *jcVersion {
 func mt(sec int64) *metav1.Time { t := metav1.NewTime(time.Unix(sec, 0)); return &t }
 
 // genJC generates a JobConfig around reference time `now` (seconds).
-func (w *cronWorld) genJC(name string, now int64) (*execution.JobConfig, tzChoice) {
+func (w *cronWorld) genJC(nsname string, now int64) (*execution.JobConfig, tzChoice) {
 	rng := w.rng
-	jc := &execution.JobConfig{ObjectMeta: metav1.ObjectMeta{Namespace: "ns", Name: name, UID: types.UID("uid-" + name2uid(name))}}
+	ns, name := "ns", nsname
+	if i := strings.Index(nsname, "/"); i >= 0 {
+		ns, name = nsname[:i], nsname[i+1:]
+	}
+	jc := &execution.JobConfig{ObjectMeta: metav1.ObjectMeta{Namespace: ns, Name: name, UID: types.UID("uid-" + name2uid(nsname))}}
 	span := []int64{120, 7200, 20 * 86400}[w.scale]
 	near := func() int64 {
 		switch rng.Intn(6) {
@@ -414,6 +418,46 @@ func firedStr(f []fired) string {
 		fmt.Fprintf(&sb, "%s@%d", Q(x.key), x.ts)
 	}
 	return sb.String()
+}
+
+// specNext: least match of the version strictly after second s (or >= nbf), within notAfter; 0 = none.
+// This is the property's own sentence evaluated on the oracle match lists (independent of the
+// Lean model and of the in-repo scheduling code).
+func specNext(v *jcVersion, s int64) int64 {
+	if v.nbf != nil && s < *v.nbf-1 {
+		s = *v.nbf - 1
+	}
+	var best int64
+	for _, l := range v.lists {
+		j := sort.Search(len(l), func(x int) bool { return l[x] > s })
+		if j < len(l) && (best == 0 || l[j] < best) {
+			best = l[j]
+		}
+	}
+	if best != 0 && v.naf != nil && best > *v.naf {
+		return 0
+	}
+	return best
+}
+
+// specInitial: the first time to request after a start at now0 (ns), per C04's sentence.
+func specInitial(v *jcVersion, now0, downtimeSec int64) int64 {
+	x := now0
+	if v.ls != nil {
+		x = *v.ls * 1e9
+		if now0-x > downtimeSec*1e9 {
+			x = now0 - downtimeSec*1e9
+		}
+	}
+	if v.lu != nil && *v.lu*1e9 > x {
+		x = *v.lu * 1e9
+	}
+	// least whole second m with m*1e9 > x  <=>  m > floor(x/1e9)
+	fl := x / 1e9
+	if x < 0 && x%1e9 != 0 {
+		fl--
+	}
+	return specNext(v, fl)
 }
 
 func runCron(c *Ctx) {
@@ -525,6 +569,13 @@ func cronCase(c *Ctx, rng *rand.Rand) {
 		if rng.Intn(6) == 0 {
 			name = fmt.Sprintf("jc.%d", k) // dots in names
 		}
+		if k > 0 && rng.Intn(4) == 0 {
+			// the same name in another namespace
+			name = fmt.Sprintf("ns2/jc%02d", rng.Intn(k))
+			if _, dup := cur[name]; dup {
+				name = fmt.Sprintf("ns2/jc.%d", k)
+			}
+		}
 		jc, tz := w.genJC(name, now0/1e9)
 		v := w.describe(jc, tz)
 		cur[v.key] = v
@@ -562,8 +613,12 @@ func cronCase(c *Ctx, rng *rand.Rand) {
 
 	// monitor state: per key, last fired time (for exactly-once / order)
 	initVer := map[string]*jcVersion{}
+	expEntry := map[string]int64{} // spec-level expectation of the next time to request (0 = none)
 	for k, v := range cur {
 		initVer[k] = v
+		if initErr == nil && v.enabled && !v.parseErr && !v.brokenLib {
+			expEntry[k] = specInitial(v, now0, dEff)
+		}
 	}
 	lastFired := map[string]int64{}
 	changedAt := map[string]int64{} // ns of the last schedule change of the key
@@ -592,7 +647,7 @@ func cronCase(c *Ctx, rng *rand.Rand) {
 					nj.Status.LastScheduled = mt(at / 1e9)
 					c.Count("cron.ev.update-status")
 				} else {
-					g, tz2 := w.genJC(nj.Name, at/1e9)
+					g, tz2 := w.genJC(nj.Namespace+"/"+nj.Name, at/1e9)
 					switch rng.Intn(4) {
 					case 0: // toggle disabled
 						if nj.Spec.Schedule != nil {
@@ -651,6 +706,36 @@ func cronCase(c *Ctx, rng *rand.Rand) {
 		for k := range changedAt {
 			if flushTick[k] == 0 {
 				flushTick[k] = at
+			}
+		}
+		if out != "panic" && initErr == nil {
+			gotBy := map[string][]int64{}
+			for _, f := range h.got {
+				gotBy[f.key] = append(gotBy[f.key], f.ts)
+			}
+			for k, e := range expEntry {
+				if _, changed := changedAt[k]; changed {
+					delete(expEntry, k)
+					continue
+				}
+				v := initVer[k]
+				var want []int64
+				capN := maxMissed
+				if capN < 0 {
+					capN = 0
+				}
+				for e != 0 && e <= at/1e9 && int64(len(want)) < capN {
+					want = append(want, e)
+					e = specNext(v, e)
+				}
+				if e != 0 && e <= at/1e9 {
+					e = specNext(v, at/1e9) // fell behind by more than the limit: resume from the present
+				}
+				expEntry[k] = e
+				if fmt.Sprint(want) != fmt.Sprint(gotBy[k]) {
+					c.Violate("C01", "requests-exact", "%s at tick %d: requested %v, the schedule implies %v (cap %d)", k, at, gotBy[k], want, maxMissed)
+					delete(expEntry, k)
+				}
 			}
 		}
 		perKey := map[string]int64{}
